@@ -92,6 +92,7 @@ Inductive cev :=
 | WQuit (t : Z)               (* writer t left the select through quit (io.EOF) *)
 | WEnq (t : Z)                (* writer t was received by the flusher next *)
 | WFlush                      (* the timer fired and the whole flush ran *)
+| WCtxEnd (t : Z) (e : err)   (* the context of request t ends now (e.g. while it sits in the flusher's queue) *)
 | WCancel                     (* the quit channel is closed (what c.cancel() does) *)
 | WFQuit.                     (* the flusher took the quit branch *)
 
@@ -128,6 +129,7 @@ Fixpoint drive_coal (has_to : bool) (s : cstate) (ev : env) (evs : list cev) : o
   | WQuit t :: r => bind (cstep has_to s (CQuitSel (Z.to_nat t))) (fun s' => drive_coal has_to s' ev r)
   | WEnq t :: r => bind (cstep has_to s (CEnqueue (Z.to_nat t))) (fun s' => drive_coal has_to s' ev r)
   | WFlush :: r => bind (drive_flush has_to s ev) (fun se => drive_coal has_to (fst se) (snd se) r)
+  | WCtxEnd t e :: r => bind (cstep has_to s (CCtxDone (Z.to_nat t) e)) (fun s' => drive_coal has_to s' ev r)
   | WCancel :: r => bind (drive_cancel has_to s) (fun s' => drive_coal has_to s' ev r)
   | WFQuit :: r => bind (cstep has_to s FQuit) (fun s' => drive_coal has_to s' ev r)
   end.
